@@ -373,6 +373,11 @@ def check_radial(ctx, case):
     G = numpy.asarray(cov.build_kernel_matrix(Xa.copy()), dtype=float)
     if not check_matrix(ctx, case, "build_kernel_matrix(X)", G, WX, n, n):
       return False
+    # the diagonal of the symmetric Gram matrix is k(x_i, x_i): a point against ITSELF, no rounding of a distance involved
+    for i in range(n):
+      if abs(G[i, i] - alpha) > 4 * 2.0 ** -52 * alpha:
+        viol(ctx, "k(x,x) != alpha on the diagonal of build_kernel_matrix(X)", case, {"i": i, "value": float(G[i, i]), "alpha": alpha, "dim": len(X[0]) if X else 0})
+        return False
     for i in range(n):
       for j in range(i + 1, n):
         if abs(G[i, j] - G[j, i]) > WX[i][j].width() or abs(vec[i, j] - vec[j, i]) > WX[i][j].width():
